@@ -32,6 +32,9 @@ type URL struct {
 
 func (u *URL) Parse() (err error) {
 	u.parsed, err = url.ParseRequestURI(u.Raw)
+	// String() is computed once from the parsed URL: a new parse makes that string stale
+	u.once = sync.Once{}
+	u.stringCache = ""
 	return err
 }
 
